@@ -64,7 +64,7 @@ def st_c19(tier, sd):
 def mixed_c04(tier):
     out = mixed_c01(tier)[:3]
     for net, extra in (('unix', {}), ('unix', {'srvpipe': True}), ('frag', {'frag': 200}), ('frag', {'poll': True, 'readers': 2, 'frag': 200})):
-        out.append(dict({'network': net, 'streams': 1, 'msgs': 2, 'end': 'close', 'burstclose': 10, 'after': 6}, **extra))
+        out.append(dict({'network': net, 'streams': 1, 'msgs': 2, 'end': 'close', 'burstclose': 100, 'after': 6}, **extra))
     return out
 
 def st_c04(tier, sd):
@@ -83,6 +83,18 @@ def st_c01(tier, sd):
                 continue
             c = {'network': net, 'codec': codec, 'header': hdr, 'conns': 3, 'callers': 4, 'calls': n, 'sizes': sizes,
                  'failevery': 9, 'missevery': 11, 'cached': 8, 'frag': 9 if net == 'frag' else 0, 'bufsize': [0, 512, 70000][len(out) % 3], 'forms': 'call,call,go,ctx,rt'}
+            c.update(mode)
+            out.append(c)
+    return out
+
+def st_c06(tier, sd):
+    # failing calls every other call, error texts with lengths around every varint boundary, under each header encoder
+    n = 600 if tier == 'thorough' else 150
+    out = []
+    for net, codec, hdr in [('unix', 'pb', 'code'), ('inproc', 'json', 'json'), ('frag', 'code', 'code'), ('unix', 'msgp', 'pb'), ('tcp', 'pb', ''), ('frag', 'alias', 'code')]:
+        for mode in ({}, {'srvpipe': True, 'clipipe': True}):
+            c = {'network': net, 'codec': codec, 'header': hdr, 'conns': 2, 'callers': 1 if mode else 3, 'calls': n, 'sizes': [20, 40, 128, 3000],
+                 'failevery': 2, 'missevery': 7, 'frag': 13 if net == 'frag' else 0, 'forms': 'go' if mode else 'call,go,ctx,rt'}
             c.update(mode)
             out.append(c)
     return out
@@ -116,8 +128,10 @@ CONN_PLANS = {
                                 ('u4dupP', C({1, 2, 5, 6}, M(cp=True, sp=True), dup=2, unk=1))]},
         'devs': [('wrongseq', ['EchoWrongSeq'], C({1, 2, 3}, M())),
                  ('seqreuse', ['SeqReuse'], C({1, 2, 3}, M())),
-                 ('seqreuseP', ['SeqReuse'], C({1, 2, 3}, M(cp=True, sp=True)))],
-        'sims': HAPPY_SIMS,
+                 ('seqreuseP', ['SeqReuse'], C({1, 2, 3}, M(cp=True, sp=True))),
+                 ('recycle', ['AbandonRecycles'], C({1, 4, 5}, M(), ctx=None)),
+                 ('recycleD', ['AbandonRecycles'], C({4, 5, 9}, M(cd=True, sd=True), ctx=None))],
+        'sims': HAPPY_SIMS + [('ctx', C({1, 2, 4, 5, 8}, M(), dup=1, ctx=None))],
         'pads': [0, 1, 24, 127, 128, 600, 70000],
         'stress': st_c01,
         'mixed': mixed_c01,
@@ -194,6 +208,7 @@ CONN_PLANS = {
     'C06': {
         'own': 'C06',
         'mixed': mixed_c01,
+        'stress': st_c06,
         'models': {'quick': [('u3e', C({1, 2, 6}, M(), mfail=1, dup=1)),
                              ('u3eP', C({1, 2, 6}, M(cp=True, sp=True), mfail=1))],
                    'thorough': [('u4e', C({1, 2, 5, 6}, M(), mfail=1, dup=1, unk=1)),
@@ -216,10 +231,38 @@ CONN_PLANS = {
                  ('dd', C({1, 2, 4, 8}, M(cd=True, sd=True), cut=1, ctx=None))],
         'stress': st_c19,
         'also_transport': 'C14',
+        'also_client': 'C19',
     },
 }
 
+# Client-layer plans used by checks of other families (defined here, resolved at run time: KC is defined further down)
+def _cli_layer_plans():
+    k2 = dict(upd=(('a', 'b'),), maxupd=0, fb=0, ctxcalls=True)
+    k3 = dict(addrs=ABC, upd=(('a', 'b', 'c'),), init=('a', 'b', 'c'), maxupd=0, fb=0, ctxcalls=True)
+    cyc = lambda n: _cycle(1, n)
+    ctxend = [{'a': 'Route', 'k': 1}, {'a': 'CtxEnd', 'k': 1}, {'a': 'Again', 'k': 1}]
+    warm = [{'a': 'Detect'}] + [{'a': 'ProbeDone', 'addr': x, 'g': 0} for x in 'abc']
+    return {
+        # C19 at the Client: CallWithContext over 1..3 live targets and every policy; the caller's context ends while the call is
+        # with the RoundTripper (which, like a Transport, gives the call up): the call returns at once with the context's error,
+        # nobody else is affected, the target is not taken for unreachable
+        'C19': {'models': {'quick': [('x2', KC(flips=1, calls=3, callers=(1, 2), **k2))],
+                           'thorough': [('x3', KC(flips=1, calls=4, callers=(1, 2), **k3)),
+                                        ('x2l', KC(policy='lt', flips=1, calls=4, callers=(1, 2), lats=(10, 30), **k2))]},
+                'devs': [('ctxdead', ['CtxMarksDead'], KC(flips=0, calls=3, callers=(1,), **k3))],
+                'sims': [('x3', KC(flips=2, calls=10, callers=(1, 2), **k3)),
+                         ('x2', KC(flips=2, calls=10, callers=(1, 2, 3), **k2)),
+                         ('x3l', KC(policy='lt', flips=1, calls=10, callers=(1, 2), lats=(10, 30), **k3))],
+                'scripts': [('ctxend3', KC(flips=0, calls=3, callers=(1,), **k3), warm + cyc(1) + ctxend + cyc(1) + ctxend + ctxend + cyc(2), ('ctx',)),
+                            ('ctxend1', KC(addrs=ABC, upd=(('a',),), init=('a',), maxupd=0, fb=0, ctxcalls=True, flips=0, calls=3, callers=(1,)),
+                             [{'a': 'Detect'}, {'a': 'ProbeDone', 'addr': 'a', 'g': 0}] + cyc(1) + ctxend + cyc(1), ('ctx',))],
+                'forms': ('ctx',)},
+    }
+CLI_LAYER_PLANS = {}
+
 def conn_check(pid, tier, replay_file=None):
+    if not CLI_LAYER_PLANS:
+        CLI_LAYER_PLANS.update(_cli_layer_plans())
     t0 = time.time()
     plan = CONN_PLANS[pid]
     sd = seed()
@@ -368,7 +411,14 @@ def conn_check(pid, tier, replay_file=None):
         light = {'models': {}, 'devs': [], 'forms': ('go', 'gonil', 'rt', 'call', 'ctx', 'ping', 'stream'),
                  'sims': [('w', KC(upd=(('a', 'b'), ('b',)), maxupd=1, flips=3, calls=8, fb=2, callers=(1, 2, 3))),
                           ('w3', KC(addrs=ABC, upd=(('a', 'b', 'c'),), init=('a', 'b', 'c'), maxupd=0, flips=4, calls=8, fb=1, callers=(1, 2)))]}
-        kv, kcov, kass = cli_core(pid, light, tier, None, models=False, nsim_quick=14)
+        own_models = isinstance(plan['also_client'], str)
+        if own_models:
+            light = CLI_LAYER_PLANS[plan['also_client']]
+        kv, kcov, kass = cli_core(pid, light, tier, None, models=own_models, nsim_quick=14)
+        if own_models:
+            cov['model_runs'] = cov.get('model_runs', []) + kcov['model_runs']
+            cov['deviation_runs'] = cov.get('deviation_runs', []) + kcov['deviation_runs']
+            cov['states'] = cov.get('states', 0) + kcov['states']; cov['transitions'] = cov.get('transitions', 0) + kcov['transitions']
         violations.extend(kv)
         cov['client_layer'] = {k: kcov[k] for k in ('schedules_replayed', 'traces_validated_against_impl', 'trace_events')}
         cov['traces_validated_against_impl'] += kcov['traces_validated_against_impl']
@@ -440,11 +490,24 @@ TRANS_PLANS = {
                  ('expirerear', ['ExpireChecksRear'], TC(ids=3, callers=(1, 2), maxconns=2, maxidle=2, maxclock=5, maxcalls=3, kills=0)),
                  ('retirebusy', ['RetireBusy'], TC(ids=3, maxclock=3, kills=0)),
                  ('closeidlebusy', ['CloseIdleBusy'], TC(ids=3, maxclock=2, kills=0)),
-                 ('closehalf', ['CloseHalfIdle'], TC(ids=3, callers=(1, 2), maxconns=2, maxidle=2, maxclock=3, maxcalls=2, kills=0))],
+                 ('closehalf', ['CloseHalfIdle'], TC(ids=3, callers=(1, 2), maxconns=2, maxidle=2, maxclock=3, maxcalls=2, kills=0)),
+                 ('abandonfree', ['AbandonFreesConn'], TC(ids=2, callers=(1, 2), maxconns=1, maxidle=1, maxclock=3, maxcalls=2, kills=0))],
         'sims': [('s1', TC(ids=6, callers=(1, 2, 3), maxclock=8, maxcalls=4, kills=0)),
                  ('s3', TC(ids=6, callers=(1, 2), maxconns=2, maxidle=2, ka=1, ito=1, maxclock=8, maxcalls=4, kills=1)),
                  ('s4', TC(ids=6, callers=(1, 2), maxconns=1, maxidle=1, maxclock=8, maxcalls=5, kills=0))],
     },
+}
+
+# C20 one layer down: what Transport.Close must find and close - connections retired to the idle queue (0..MaxIdle of them) and
+# connections that did not fit into it (closed at the overflow, never dropped)
+TRANS_PLANS['C20'] = {
+    'own': 'C20', 'models': {},
+    'devs': [('closehalf', ['CloseHalfIdle'], TC(ids=3, callers=(1, 2), maxconns=2, maxidle=2, maxclock=3, maxcalls=2, kills=0)),
+             ('overflow', ['OverflowNotClosed'], TC(ids=3, maxclock=3)),
+             ('overflow3', ['OverflowNotClosed'], TC(ids=3, callers=(1, 2, 3), maxconns=3, maxidle=1, maxclock=3, maxcalls=1, kills=0))],
+    'sims': [('s1', TC(ids=6, callers=(1, 2, 3), maxclock=8, maxcalls=4, kills=0)),
+             ('s3', TC(ids=6, callers=(1, 2), maxconns=2, maxidle=2, ka=1, ito=1, maxclock=8, maxcalls=4, kills=1)),
+             ('s5', TC(ids=6, callers=(1, 2, 3), maxconns=3, maxidle=1, ka=1, ito=3, maxclock=8, maxcalls=3, kills=0))],
 }
 
 def trans_check(pid, tier, replay_file=None):
@@ -493,6 +556,11 @@ def trans_core(pid, plan, tier, replay_file=None, models=True):
         schedules.append({'name': 'ioerr:inflight', 'cfg': icfg, 'steps': G(1) + [{'a': 'Drop', 'k': 1}] + R(1) + G(1) + R(1) + G(1) + R(1) + G(1) + R(1)})
         scfg = {'Addrs': ['a'], 'MaxConns': 1, 'MaxIdle': 1, 'KeepAlive': 1, 'IdleTO': 2, 'UnitMs': 50, 'Forms': ['call', 'stream', 'call', 'call']}
         schedules.append({'name': 'stream:deadconn', 'cfg': scfg, 'steps': G(1) + R(1) + [{'a': 'Kill', 'addr': 'a'}, {'a': 'Restart', 'addr': 'a'}] + G(1) + R(1) + G(1) + R(1) + G(1) + R(1)})
+        # connections whose Close reports an error once the peer is gone (TLS cannot send its close_notify): the server goes
+        # away under a pooled connection and comes back; the failed call must still retire the connection
+        ccfg = {'Addrs': ['a'], 'MaxConns': 1, 'MaxIdle': 1, 'KeepAlive': 1, 'IdleTO': 2, 'UnitMs': 50, 'CloseErr': True, 'Forms': ['call']}
+        schedules.append({'name': 'closeerr:kill', 'cfg': ccfg, 'steps': G(1) + R(1) + [{'a': 'Kill', 'addr': 'a'}] + G(1) + R(1) + [{'a': 'Restart', 'addr': 'a'}] + G(1) + R(1) + G(1) + R(1) + G(1) + R(1)})
+        schedules.append({'name': 'closeerr:drop', 'cfg': dict(ccfg, Forms=['call', 'stream', 'call']), 'steps': G(1) + R(1) + [{'a': 'Drop', 'k': 1}] + G(1) + R(1) + G(1) + R(1) + G(1) + R(1)})
         if plan.get('bursts'):
             # concurrent callers racing for the pool (no gates): limits and their normalisation
             for j, (mc, mi, raw) in enumerate([(2, 1, None), (1, 1, (0, 0)), (1, 1, (-1, 5)), (2, 2, (2, 5)), (3, 2, None), (1, 1, None), (3, 1, (3, -1)), (2, 1, (2, -3))]):
@@ -564,6 +632,16 @@ CLI_PLANS = {
                  ('rnd', KC(addrs=ABC, policy='random', upd=(('a', 'b'), ('b', 'c'), ('a', 'b', 'c')), init=('a', 'b', 'c'), maxupd=3, flips=2, calls=8, fb=1, director=1)),
                  ('lt', KC(addrs=ABC, policy='lt', upd=(('a', 'b'), ('b', 'c'), ('a', 'b', 'c')), init=('a', 'b', 'c'), maxupd=3, flips=2, calls=8, fb=0, lats=(10, 30)))],
         'forms': ('call', 'go', 'rt', 'ctx', 'ping', 'stream', 'gonil'),
+        # exactly one live target, Update replaces it, and a call is routed before the first probe of the new set has finished: the
+        # caller must wait for the new target (or, with an empty set, fail), never reach the removed one
+        'scripts': [('updswap', KC(upd=(('b',),), init=('a',), maxupd=1, flips=0, calls=3, fb=0, callers=(1,)),
+                     [{'a': 'Detect'}, {'a': 'ProbeDone', 'addr': 'a', 'g': 0}] + _cycle(1, 2) +
+                     [{'a': 'Update', 'set': ['b']}, {'a': 'Route', 'k': 1}, {'a': 'Detect'}, {'a': 'ProbeDone', 'addr': 'b', 'g': 1}, {'a': 'WokenPick', 'k': 1},
+                      {'a': 'CallDone', 'k': 1}, {'a': 'Again', 'k': 1}] + _cycle(1, 1), ('call', 'ctx', 'go', 'ping')),
+                    ('updswap2', KC(upd=(('a', 'b'),), init=('a',), maxupd=1, flips=0, calls=3, fb=0, callers=(1,)),
+                     [{'a': 'Detect'}, {'a': 'ProbeDone', 'addr': 'a', 'g': 0}] + _cycle(1, 1) +
+                     [{'a': 'Update', 'set': ['a', 'b']}, {'a': 'Route', 'k': 1}, {'a': 'Detect'}, {'a': 'ProbeDone', 'addr': 'b', 'g': 1}, {'a': 'ProbeDone', 'addr': 'a', 'g': 1},
+                      {'a': 'WokenPick', 'k': 1}, {'a': 'CallDone', 'k': 1}, {'a': 'Again', 'k': 1}] + _cycle(1, 2), ('call', 'rt'))],
     },
     'C17': {
         'own': 'C17',
@@ -582,6 +660,11 @@ CLI_PLANS = {
                  ('lt', KC(addrs=ABC, policy='lt', upd=(('a', 'b', 'c'),), init=('a', 'b', 'c'), maxupd=0, flips=2, calls=14, fb=0, lats=(10, 30), callers=(1,))),
                  ('lt4', KC(addrs=('a', 'b', 'c', 'd'), policy='lt', upd=(('a', 'b', 'c', 'd'),), init=('a', 'b', 'c', 'd'), maxupd=0, flips=1, calls=16, fb=0, lats=(10, 30), callers=(1,)))],
         'forms': ('call', 'ctx', 'ping', 'call'),
+        # a failing target reached through each call form that reports the outcome to its target (and the asynchronous ones beside them)
+        'scripts': [('deadstay', KC(addrs=ABC, upd=(('a', 'b', 'c'),), init=('a', 'b', 'c'), maxupd=0, flips=1, calls=3, fb=0, callers=(1,)), _dead_script(3),
+                     ('call', 'ctx', 'ping', 'stream', 'go', 'rt')),
+                    ('deadstay_lt', KC(addrs=ABC, policy='lt', upd=(('a', 'b', 'c'),), init=('a', 'b', 'c'), maxupd=0, flips=1, calls=3, fb=0, lats=(10, 30), callers=(1,)),
+                     _dead_script(3), ('call', 'ctx'))],
     },
     'C18': {
         'own': 'C18',
@@ -654,11 +737,13 @@ def cli_core(pid, plan, tier, replay_file=None, models=True, nsim_quick=30):
             for rep in range(8):
                 s2 = dict(s); s2['name'] = s['name'] if rep == 0 else '%s#%d' % (s['name'], rep)
                 schedules.append(s2)
-        for tag, c, steps in plan.get('scripts', []):
-            for rep in range(2):
-                s = kf.sched('%s_%s%s' % (pid, tag, '#%d' % rep if rep else ''), c, [])
-                s['steps'] = s['steps'] + steps
-                schedules.append(s)
+        for sc in plan.get('scripts', []):
+            tag, c, steps = sc[0], sc[1], sc[2]
+            for form in (sc[3] if len(sc) > 3 else ('call',)):
+                for rep in range(2):
+                    s = kf.sched('%s_%s_%s%s' % (pid, tag, form, '#%d' % rep if rep else ''), c, [], form)
+                    s['steps'] = s['steps'] + steps
+                    schedules.append(s)
         nsim = nsim_quick if tier == 'quick' else 10 * nsim_quick
         for j, (tag, c) in enumerate(plan['sims']):
             ss, res = kf.sim_schedules('%s_%s' % (pid, tag), c, nsim, 50, sd * 1000 + j, forms)
@@ -756,6 +841,12 @@ def stream_scenarios(tier):
                 out.append({'network': net, 'poll': poll, 'readers': readers, 'streams': 2, 'pushfirst': 1, 'msgs': 3, 'end': 'drop', 'srveof': 'unexpected', 'frag': 0})
                 out.append({'network': net, 'poll': poll, 'readers': readers, 'streams': 2, 'msgs': 3, 'end': 'half', 'srveof': 'unexpected', 'frag': 9})
             out.append({'network': net, 'poll': poll, 'readers': readers, 'streams': 3, 'pushfirst': 1, 'msgs': 3, 'end': 'half', 'frag': 0})
+            # streams on a pipelining client connection, opened while replies of unary calls are being completed in order; the
+            # handler writes first
+            for pf, un in ((3, 12), (1, 6), (0, 6)):
+                out.append({'network': net, 'poll': poll, 'readers': readers, 'streams': 3, 'pushfirst': pf, 'msgs': 4, 'unary': un, 'end': 'close', 'clipipe': True,
+                            'frag': 5 if net == 'frag' else 0})
+            out.append({'network': net, 'poll': poll, 'readers': readers, 'streams': 2, 'pushfirst': 2, 'msgs': 3, 'unary': 8, 'end': 'drop', 'clipipe': True, 'srvpipe': True, 'frag': 0})
     return out
 
 STREAM_PLANS = {
@@ -1406,7 +1497,7 @@ def c20_check(pid, tier, replay_file=None):
     cov['traces_validated_against_impl'] = len(results)
     if not replay_file:
         # the pool of a Transport with retired (idle) connections at Close: schedules of Transport.tla, Close with 0..MaxIdle idle entries
-        tv, tcov, tass = trans_core(pid, TRANS_PLANS['C15'], tier, None, models=False)
+        tv, tcov, tass = trans_core(pid, TRANS_PLANS['C20'], tier, None, models=False)
         uniq.extend(tv[:4])
         cov['transport_layer'] = {k: tcov[k] for k in ('schedules_replayed', 'traces_validated_against_impl', 'trace_events')}
         cov['traces_validated_against_impl'] += tcov['traces_validated_against_impl']
